@@ -1,7 +1,128 @@
-import AgVerif.Model.ReachDef
+/-
+C20 — def-use chains equal the reaching-definitions solution.
+Property theorems only (lemmas: AgVerif/Proof/ReachDef{Sets,Run,Term,Spec,UD}.lean).
+
+Model: AgVerif.ReachDef (transliteration of `BasicReachDef.__init__/run`, `reach_def_analysis`,
+`build_def_use` of androguard/decompiler/dataflow.py).   Spec: AgVerif.Spec.ReachDef (explicit paths).
+Every theorem quantifies over all graphs (any number of nodes, statements, registers, parameters, any
+edge/catch-edge relation incl. loops, self-loops, unreachable nodes) that satisfy the decidable
+well-formedness predicate `WF` (edge tables cover the nodes; targets, entry, exit are nodes).
+-/
+import AgVerif.Proof.ReachDefUD
 namespace AgVerif.C20
 open AgVerif.ReachDef AgVerif.Spec.ReachDef
 
-theorem placeholder_run_zero (g : Prog) (st : St) : run g 0 st = st := rfl
+/-- The work-list loop of `BasicReachDef.run` empties within `bound g` iterations, and what it leaves is a
+    solution of the data-flow equations `R[v] = A[dummy entry if v is the entry] ∪ ⋃_{p → v} A[p]`,
+    `A[v] = (R[v] − killed(v)) ∪ DB(v)` at every node (dummy exit included). -/
+theorem run_fixpoint (g : Prog) (hwf : WF g = true) :
+    (analysis g).wl = [] ∧ (analysis g).steps ≤ bound g ∧
+    ∀ v, v < nA g →
+      (∀ d, d ∈ (analysis g).R v ↔ d ∈ inSet g (analysis g).A v) ∧
+      (∀ d, d ∈ (analysis g).A v ↔ d ∈ outSet g v ((analysis g).R v)) := by
+  have hI : Inv g (analysis g) := inv_run g (bound g)
+  have hwl : (analysis g).wl = [] :=
+    run_empties hwf (bound g) (init g) (inv_init g) (invT_init g) (phi_init_le g)
+  refine ⟨hwl, ?_, ?_⟩
+  · have : ∀ fuel st, (run g fuel st).steps ≤ st.steps + fuel := by
+      intro fuel
+      induction fuel with
+      | zero => intro st; simp [run]
+      | succ f ih =>
+        intro st
+        unfold run
+        cases h : st.wl with
+        | nil => simp
+        | cons v rest =>
+          simp only
+          have := ih (step g st)
+          rw [step_eq h] at this ⊢
+          simp only at this ⊢
+          omega
+    have := this (bound g) (init g)
+    simpa [analysis, init] using this
+  · intro v hv
+    have hfix := hI.fix v hv (by rw [hwl]; simp)
+    exact ⟨fun d => ⟨hI.rIn v d, hfix.1 d⟩, fun d => ⟨hI.aOut v d, hfix.2 d⟩⟩
+
+/-- The computed sets are below every pre-solution of the equations (so they are the least solution). -/
+theorem run_least (g : Prog) (SR SA : Nat → Int → Prop) (hP : PreSol g SR SA) (v : Nat) (d : Int) :
+    (d ∈ (analysis g).R v → SR v d) ∧ (d ∈ (analysis g).A v → SA v d) :=
+  ⟨(below_run hP (bound g)).1 v d, (below_run hP (bound g)).2 v d⟩
+
+/-- MFP = MOP: at every node of the graph, `R[v]` is exactly the set of definitions that reach the start
+    of `v` along some path (normal and catch edges, parameters placed in a dummy node in front of the
+    entry) without an intervening redefinition of their register. -/
+theorem mfp_eq_mop (g : Prog) (hwf : WF g = true) (v : Nat) (hv : v < nOrig g) (d : Int) :
+    d ∈ (analysis g).R v ↔ ∃ x, ReachesEntry g d x v := by
+  obtain ⟨_, _, hsol⟩ := run_fixpoint g hwf
+  have hS : Solved g (analysis g) :=
+    ⟨fun w hw d hd => ((hsol w hw).1 d).2 hd, fun w hw d hd => ((hsol w hw).2 d).2 hd⟩
+  constructor
+  · intro hd
+    obtain ⟨x, _, hr⟩ := (run_least g (SRp g) (SAp g) (paths_presol hwf) v d).1 hd hv
+    exact ⟨x, hr⟩
+  · rintro ⟨x, hr⟩
+    exact reach_sound hwf hS hr
+
+/-- The use-def chain of `build_def_use` is exact: `d` is linked to the use of register `x` by statement
+    `u` iff definition `d` of `x` reaches that use (prior definition in the same node, or a path from
+    another node / the parameters with no redefinition). -/
+theorem ud_exact (g : Prog) (hwf : WF g = true) (x : Reg) (u d : Int) :
+    d ∈ dictGet (buildDefUse g).1 (x, u) ↔ Reaches g d x u := by
+  show d ∈ dictGet (buildUD g (analysis g).R) (x, u) ↔ Reaches g d x u
+  rw [buildUD_mem]
+  constructor
+  · rintro ⟨v, hv, ⟨u', s⟩, hp, y, hy, hk, hd⟩
+    simp only [Prod.mk.injEq] at hk
+    obtain ⟨rfl, rfl⟩ := hk
+    refine ⟨v, s, mem_locIns.1 hp, hy, ?_⟩
+    rcases (useDefs_spec g _ v u' y d).1 hd with h | ⟨h1, h2, h3⟩
+    · exact Or.inl h
+    · obtain ⟨x', hx'⟩ := (mfp_eq_mop g hwf v hv d).1 h3
+      have := def_unique h2 (reachesEntry_def hx')
+      subst this
+      exact Or.inr ⟨h1, hx'⟩
+  · rintro ⟨v, s, hs, hx, h⟩
+    have hv : v < nOrig g := by
+      obtain ⟨ss, k, hss, _, _⟩ := hs
+      exact (List.getElem?_eq_some_iff.1 hss).1
+    refine ⟨v, hv, (u, s), mem_locIns.2 hs, x, hx, rfl, ?_⟩
+    rw [useDefs_spec]
+    rcases h with h | ⟨h1, h2⟩
+    · exact Or.inl h
+    · exact Or.inr ⟨h1, reachesEntry_def h2, (mfp_eq_mop g hwf v hv d).2 ⟨x, h2⟩⟩
+
+/-- The def-use chain is the inverse of the use-def chain. -/
+theorem du_inverse (g : Prog) (x : Reg) (d u : Int) :
+    u ∈ dictGet (buildDefUse g).2 (x, d) ↔ d ∈ dictGet (buildDefUse g).1 (x, u) :=
+  du_inverse_of_nodup (keysNodup_buildUD g _) x d u
+
+/-- Consequence: use `u` of `x` is in the DU chain of definition `d` iff `d` reaches `u`. -/
+theorem du_exact (g : Prog) (hwf : WF g = true) (x : Reg) (u d : Int) :
+    u ∈ dictGet (buildDefUse g).2 (x, d) ↔ Reaches g d x u := by
+  rw [du_inverse, ud_exact g hwf]
+
+/-! ### non-vacuity: a loop with a catch edge, a parameter, an unreachable node -/
+
+/-- node 0 (unreachable): `r3 := …`; node 1 (entry): `r0 := f(r1); r2 := f(r0)`; node 2 (self-loop):
+    `r0 := f(r0, r2)`; node 3 (exit): `use(r0, r1, r5)`; catch edge 1 → 3; parameters r1, r7. -/
+def ex : Prog :=
+  { nodes := [[⟨some 3, []⟩], [⟨some 0, [1]⟩, ⟨some 2, [0]⟩], [⟨some 0, [0, 2]⟩], [⟨none, [0, 1, 5]⟩]],
+    edges := [[3], [2], [2, 3], []], cedges := [[], [3], [], []], entry := 1, exit := some 3, params := [1, 7] }
+
+example : WF ex = true := by decide
+example : (analysis ex).steps = 8 ∧ bound ex = 305 := by decide
+example : (buildDefUse ex).1 =
+    [((1, 1), [-1]), ((0, 2), [1]), ((0, 3), [1, 3]), ((2, 3), [2]), ((0, 4), [1, 3]), ((1, 4), [-1])] := by decide
+example : (buildDefUse ex).2 = [((1, -1), [1, 4]), ((0, 1), [2, 3, 4]), ((0, 3), [3, 4]), ((2, 2), [3])] := by decide
+/-- both definitions of r0 (statement 1 through the catch edge, statement 3 around the loop) reach statement 4 -/
+example : Reaches ex 1 0 4 ∧ Reaches ex 3 0 4 :=
+  ⟨(ud_exact ex (by decide) 0 4 1).1 (by decide), (ud_exact ex (by decide) 0 4 3).1 (by decide)⟩
+/-- the parameter r1 reaches statement 4; statement 2's definition of r2 does not reach a use of r0 -/
+example : Reaches ex (-1) 1 4 ∧ ¬ Reaches ex 2 0 4 :=
+  ⟨(ud_exact ex (by decide) 1 4 (-1)).1 (by decide), fun h => absurd ((ud_exact ex (by decide) 0 4 2).2 h) (by decide)⟩
+/-- the path set is a pre-solution for a concrete graph (hypothesis of `run_least` is satisfiable) -/
+example : PreSol ex (SRp ex) (SAp ex) := paths_presol (by decide)
 
 end AgVerif.C20
